@@ -91,7 +91,9 @@ theorem frame_processCmd (w : W) (p : Nat) (d : Dg) :
       simp only []
       split
       · exact ⟨rfl, rfl, rfl, h0⟩
-      · exact ⟨rfl, rfl, rfl, fun q => by simp only [bump, sendN]; exact h0 q⟩
+      · split
+        · exact ⟨rfl, rfl, rfl, h0⟩
+        · exact ⟨rfl, rfl, rfl, fun q => by simp only [bump, sendN]; exact h0 q⟩
     | some lf =>
       simp only []
       split
@@ -204,6 +206,7 @@ theorem step_call_inv (w : W) (p ctr : Nat) (ack : Bool) (k : Call) (hinv : Inv 
       simp only [callApply, List.mem_filter] at hb
       exact hinv b hb.1
     | sub c s t => exact hinv b hb
+    | unsub c s => exact hinv b hb
   · exact hinv b hb
 
 theorem step_call_agree (w : W) (p ctr : Nat) (ack : Bool) (k : Call) (holds : Entry → Bool)
@@ -234,6 +237,9 @@ theorem step_call_agree (w : W) (p ctr : Nat) (ack : Bool) (k : Call) (holds : E
         simp [hd, hx]
     · exact hag x
   | sub c s t =>
+    simp only [evOf, specStep]
+    split <;> exact hag x
+  | unsub c s =>
     simp only [evOf, specStep]
     split <;> exact hag x
 
@@ -268,6 +274,9 @@ theorem step_call_sound (w : W) (p ctr : Nat) (ack : Bool) (k : Call) (holds : E
       simp only [hok, Bool.false_eq_true, if_false, specStep]
       exact hs x hx
   | sub c s t =>
+    simp only [evOf, specStep]
+    split at hx <;> exact hs x hx
+  | unsub c s =>
     simp only [evOf, specStep]
     split at hx <;> exact hs x hx
 
@@ -499,6 +508,62 @@ theorem step_conn_inv (w : W) (p : Nat) (hinv : Inv w) : Inv (connPeer w p) := b
     exact hold
   · exact hold
 
+theorem frame_localSet (w : W) (a : Addr) (fn v : Nat) :
+    (localSet w a fn v).1.binds = w.binds ∧ (localSet w a fn v).1.cfg = w.cfg ∧ (localSet w a fn v).1.fresh = w.fresh ∧
+      ∀ q, ((localSet w a fn v).1.peers q).feats = (w.peers q).feats := by
+  unfold localSet
+  split
+  · split
+    · exact ⟨rfl, rfl, rfl, fun _ => rfl⟩
+    · exact ⟨rfl, rfl, rfl, fun _ => rfl⟩
+  · exact ⟨rfl, rfl, rfl, fun _ => rfl⟩
+
+/-! #### repeated discovery reply -/
+
+theorem frame_processReann (w : W) (p ctr : Nat) (ref : Option Nat) (ack : Bool) :
+    (processReann w p ctr ref ack).1.binds = w.binds ∧ (processReann w p ctr ref ack).1.cfg = w.cfg ∧
+      (processReann w p ctr ref ack).1.fresh = w.fresh := by
+  unfold processReann
+  split <;> exact ⟨rfl, rfl, rfl⟩
+
+theorem feats_processReann (w : W) (p ctr : Nat) (ref : Option Nat) (ack : Bool) (q : Nat) :
+    ((processReann w p ctr ref ack).1.peers q).feats =
+      if connected w p && q = p then w.fresh.feats else (w.peers q).feats := by
+  unfold processReann
+  cases hc : connected w p with
+  | false => simp
+  | true =>
+    simp only [Bool.not_true, Bool.false_eq_true, if_false, Bool.true_and, decide_eq_true_eq, setPeer]
+    split
+    · simp only [sendN, feats_request]
+    · rfl
+
+/-- every entity a peer announces is one the announcements of a fresh peer contain (all announced features stem from
+    the same announcement set) -/
+def InvF (w : W) : Prop := ∀ q e, hasEnt w q e = true → (w.fresh.feats.any fun f => f.ent = e) = true
+
+theorem invF_of (w w' : W) (hfresh : w'.fresh = w.fresh)
+    (h : ∀ q f, f ∈ (w'.peers q).feats → f ∈ (w.peers q).feats ∨ f ∈ w.fresh.feats) (hF : InvF w) : InvF w' := by
+  intro q e he
+  unfold hasEnt at he
+  rw [List.any_eq_true] at he
+  obtain ⟨f, hf, hfe⟩ := he
+  rw [hfresh]
+  rcases h q f hf with h1 | h1
+  · exact hF q e (by unfold hasEnt; rw [List.any_eq_true]; exact ⟨f, h1, hfe⟩)
+  · rw [List.any_eq_true]; exact ⟨f, h1, hfe⟩
+
+theorem step_reann_inv (w : W) (p ctr : Nat) (ref : Option Nat) (ack : Bool) (hinv : Inv w) (hF : InvF w) :
+    Inv (processReann w p ctr ref ack).1 := by
+  intro b hb
+  rw [(frame_processReann w p ctr ref ack).1] at hb
+  have hold := hinv b hb
+  unfold hasEnt
+  rw [feats_processReann]
+  split
+  · exact hF b.2.1 b.2.2.1 hold
+  · exact hold
+
 /-! #### one step, then histories -/
 
 theorem step_frame (w : W) (op : Op) : (step w op).1.cfg = w.cfg ∧ (step w op).1.fresh = w.fresh := by
@@ -509,8 +574,59 @@ theorem step_frame (w : W) (op : Op) : (step w op).1.cfg = w.cfg ∧ (step w op)
   | entAdd p e ctr ack => exact ⟨(frame_processEntAdd w p e ctr ack).2.1, (frame_processEntAdd w p e ctr ack).2.2⟩
   | drop p => exact ⟨rfl, rfl⟩
   | conn p => exact ⟨(frame_connPeer w p).2.1, (frame_connPeer w p).2.2⟩
+  | setData a fn v => exact ⟨(frame_localSet w a fn v).2.1, (frame_localSet w a fn v).2.2.1⟩
+  | reann p ctr ref ack => exact ⟨(frame_processReann w p ctr ref ack).2.1, (frame_processReann w p ctr ref ack).2.2⟩
 
-theorem step_inv (w : W) (op : Op) (hinv : Inv w) (hok : opOk w.fresh op) : Inv (step w op).1 := by
+theorem step_invF (w : W) (op : Op) (hF : InvF w) : InvF (step w op).1 := by
+  refine invF_of w _ (step_frame w op).2 ?_ hF
+  intro q f hf
+  cases op with
+  | dg p d => left; rw [show (step w (.dg p d)).1 = (processCmd w p d).1 from rfl, (frame_processCmd w p d).2.2.2 q] at hf; exact hf
+  | call p ctr ack k =>
+    left; rw [show (step w (.call p ctr ack k)).1 = (processCall w p ctr ack k).1 from rfl, (frame_processCall w p ctr ack k).2.2 q] at hf
+    exact hf
+  | entRem p e ctr ack =>
+    left
+    rw [show (step w (.entRem p e ctr ack)).1 = (processEntRem w p e ctr ack).1 from rfl, feats_processEntRem] at hf
+    split at hf
+    · rename_i hq
+      simp only [Bool.and_eq_true, decide_eq_true_eq] at hq
+      rw [hq.2]; exact (List.mem_filter.mp hf).1
+    · exact hf
+  | entAdd p e ctr ack =>
+    rw [show (step w (.entAdd p e ctr ack)).1 = (processEntAdd w p e ctr ack).1 from rfl, feats_processEntAdd] at hf
+    split at hf
+    · rename_i hq
+      simp only [Bool.and_eq_true, decide_eq_true_eq] at hq
+      rw [List.mem_append] at hf
+      rcases hf with hf | hf
+      · left; rw [hq.2]; exact (List.mem_filter.mp hf).1
+      · right; exact (List.mem_filter.mp hf).1
+    · left; exact hf
+  | drop p =>
+    left
+    rw [show (step w (.drop p)).1 = dropPeer w p from rfl, feats_dropPeer] at hf
+    split at hf
+    · cases hf
+    · exact hf
+  | conn p =>
+    simp only [step, connPeer] at hf
+    split at hf
+    · simp only [setPeer] at hf
+      split at hf
+      · right; exact hf
+      · left; exact hf
+    · left; exact hf
+  | setData a fn v =>
+    left; rw [show (step w (.setData a fn v)).1 = (localSet w a fn v).1 from rfl, (frame_localSet w a fn v).2.2.2 q] at hf
+    exact hf
+  | reann p ctr ref ack =>
+    rw [show (step w (.reann p ctr ref ack)).1 = (processReann w p ctr ref ack).1 from rfl, feats_processReann] at hf
+    split at hf
+    · right; exact hf
+    · left; exact hf
+
+theorem step_inv (w : W) (op : Op) (hinv : Inv w) (hF : InvF w) (hok : opOk w.fresh op) : Inv (step w op).1 := by
   cases op with
   | dg p d =>
     have hf := frame_processCmd w p d
@@ -521,6 +637,11 @@ theorem step_inv (w : W) (op : Op) (hinv : Inv w) (hok : opOk w.fresh op) : Inv 
   | entAdd p e ctr ack => exact step_entAdd_inv w p e ctr ack hinv hok
   | drop p => exact step_drop_inv w p hinv
   | conn p => exact step_conn_inv w p hinv
+  | setData a fn v =>
+    have hf := frame_localSet w a fn v
+    exact inv_of_subset w _ hinv (fun b hb => by rw [show (step w (.setData a fn v)).1 = (localSet w a fn v).1 from rfl, hf.1] at hb; exact hb)
+      (fun b _ => hf.2.2.2 b.2.1)
+  | reann p ctr ref ack => exact step_reann_inv w p ctr ref ack hinv hF
 
 theorem step_sound (w : W) (op : Op) (holds : Entry → Bool) (hinv : Inv w) (hs : Sound w holds) :
     Sound (step w op).1 (specStep holds (evOf w op)) := by
@@ -539,6 +660,14 @@ theorem step_sound (w : W) (op : Op) (holds : Entry → Bool) (hinv : Inv w) (hs
   | conn p =>
     intro x hx
     rw [show (step w (.conn p)).1 = connPeer w p from rfl, (frame_connPeer w p).1] at hx
+    exact hs x hx
+  | setData a fn v =>
+    intro x hx
+    rw [show (step w (.setData a fn v)).1 = (localSet w a fn v).1 from rfl, (frame_localSet w a fn v).1] at hx
+    exact hs x hx
+  | reann p ctr ref ack =>
+    intro x hx
+    rw [show (step w (.reann p ctr ref ack)).1 = (processReann w p ctr ref ack).1 from rfl, (frame_processReann w p ctr ref ack).1] at hx
     exact hs x hx
 
 theorem step_agree (w : W) (op : Op) (holds : Entry → Bool) (hu : w.cfg.unbindDisjunct = false)
@@ -560,48 +689,56 @@ theorem step_agree (w : W) (op : Op) (holds : Entry → Bool) (hu : w.cfg.unbind
     intro x
     rw [show (step w (.conn p)).1 = connPeer w p from rfl, (frame_connPeer w p).1]
     exact hag x
+  | setData a fn v =>
+    intro x
+    rw [show (step w (.setData a fn v)).1 = (localSet w a fn v).1 from rfl, (frame_localSet w a fn v).1]
+    exact hag x
+  | reann p ctr ref ack =>
+    intro x
+    rw [show (step w (.reann p ctr ref ack)).1 = (processReann w p ctr ref ack).1 from rfl, (frame_processReann w p ctr ref ack).1]
+    exact hag x
 
-theorem run_sound (ops : List Op) : ∀ (w : W) (holds : Entry → Bool), Inv w → Sound w holds →
+theorem run_sound (ops : List Op) : ∀ (w : W) (holds : Entry → Bool), Inv w → InvF w → Sound w holds →
     (∀ op ∈ ops, opOk w.fresh op) → Sound (run w ops) (specFrom holds (trace w ops)) := by
   induction ops with
-  | nil => intro w holds _ hs _; exact hs
+  | nil => intro w holds _ _ hs _; exact hs
   | cons op ops ih =>
-    intro w holds hinv hs hok
+    intro w holds hinv hF hs hok
     have hfr := step_frame w op
-    exact ih (step w op).1 (specStep holds (evOf w op)) (step_inv w op hinv (hok op (List.mem_cons_self ..)))
-      (step_sound w op holds hinv hs)
+    exact ih (step w op).1 (specStep holds (evOf w op)) (step_inv w op hinv hF (hok op (List.mem_cons_self ..)))
+      (step_invF w op hF) (step_sound w op holds hinv hs)
       (fun o ho => by rw [hfr.2]; exact hok o (List.mem_cons_of_mem _ ho))
 
 theorem run_agree (ops : List Op) : ∀ (w : W) (holds : Entry → Bool), w.cfg.unbindDisjunct = false →
-    w.cfg.entRemovalAnyPeer = false → Inv w → Agree w holds → (∀ op ∈ ops, opOk w.fresh op) →
+    w.cfg.entRemovalAnyPeer = false → Inv w → InvF w → Agree w holds → (∀ op ∈ ops, opOk w.fresh op) →
     Agree (run w ops) (specFrom holds (trace w ops)) := by
   induction ops with
-  | nil => intro w holds _ _ _ hag _; exact hag
+  | nil => intro w holds _ _ _ _ hag _; exact hag
   | cons op ops ih =>
-    intro w holds hu he hinv hag hok
+    intro w holds hu he hinv hF hag hok
     have hfr := step_frame w op
     exact ih (step w op).1 (specStep holds (evOf w op)) (by rw [hfr.1]; exact hu) (by rw [hfr.1]; exact he)
-      (step_inv w op hinv (hok op (List.mem_cons_self ..))) (step_agree w op holds hu he hinv hag)
+      (step_inv w op hinv hF (hok op (List.mem_cons_self ..))) (step_invF w op hF) (step_agree w op holds hu he hinv hag)
       (fun o ho => by rw [hfr.2]; exact hok o (List.mem_cons_of_mem _ ho))
 
 /-- C03 over histories, repaired registries: after any history that starts without bindings, the write gate is open
     exactly for the functions announced writable and the bindings the SPEC registry holds at that moment — granted
     and not deleted since, holder still connected, holder's entity not removed since -/
 theorem c03_follows_registry (w0 : W) (ops : List Op) (hu : w0.cfg.unbindDisjunct = false)
-    (he : w0.cfg.entRemovalAnyPeer = false) (h0 : w0.binds = []) (hok : ∀ op ∈ ops, opOk w0.fresh op)
+    (he : w0.cfg.entRemovalAnyPeer = false) (h0 : w0.binds = []) (hF : InvF w0) (hok : ∀ op ∈ ops, opOk w0.fresh op)
     (p : Nat) (lf : LF) (d : Dg) :
     gateOk (run w0 ops) p lf d = (writable lf d.fn && specReg (trace w0 ops) (d.dst, p, d.src)) := by
-  have hag := run_agree ops w0 (fun _ => false) hu he (by intro b hb; rw [h0] at hb; cases hb)
+  have hag := run_agree ops w0 (fun _ => false) hu he (by intro b hb; rw [h0] at hb; cases hb) hF
     (by intro x; rw [h0]; simp) hok (d.dst, p, d.src)
   rw [Bool.eq_iff_iff, gateOk_iff, Bool.and_eq_true]
   exact ⟨fun h => ⟨h.1, hag.mp h.2⟩, fun h => ⟨h.1, hag.mpr h.2⟩⟩
 
 /-- C03 over histories, every member of the family (also the code as written): the gate never opens for a binding
     the SPEC registry does not hold — the registry defects only lose bindings, they never invent or keep one -/
-theorem c03_accepted_only_if_registry (w0 : W) (ops : List Op) (h0 : w0.binds = [])
+theorem c03_accepted_only_if_registry (w0 : W) (ops : List Op) (h0 : w0.binds = []) (hF : InvF w0)
     (hok : ∀ op ∈ ops, opOk w0.fresh op) (p : Nat) (lf : LF) (d : Dg) (hg : gateOk (run w0 ops) p lf d = true) :
     writable lf d.fn = true ∧ specReg (trace w0 ops) (d.dst, p, d.src) = true := by
-  have hs := run_sound ops w0 (fun _ => false) (by intro b hb; rw [h0] at hb; cases hb)
+  have hs := run_sound ops w0 (fun _ => false) (by intro b hb; rw [h0] at hb; cases hb) hF
     (by intro x hx; rw [h0] at hx; cases hx) hok (d.dst, p, d.src)
   have := (gateOk_iff _ p lf d).mp hg
   exact ⟨this.1, hs this.2⟩
@@ -613,7 +750,7 @@ def witLF2 : LF := { ent := [2], feat := 2, typ := 1, role := .server, fds := [5
 def witW : W :=
   { loc := [witLF1, witLF2], peers := fun _ => ⟨[], 0, []⟩, binds := [],
     fresh := ⟨[⟨[0], 0, [], 9, .special⟩, ⟨[1], 1, [5], 1, .client⟩], 3, []⟩ }
-def witD (dst : Addr) : Dg := ⟨([1], 1), dst, 50, none, .write, true, 5, false⟩
+def witD (dst : Addr) : Dg := { src := ([1], 1), dst := dst, ctr := some 50, ref := none, cls := .write, ack := true, fn := 5, val := 7 }
 
 /-- another peer's entity removal: conn 1, conn 2, peer 1 binds [1]/1 to [1]/1, peer 2 announces the removal of its
     entity [1] -/
